@@ -769,7 +769,7 @@ def gc_spell(rng, nd, i, p=0.35):
     return i - nd if rng.random() < p else i
 
 
-def run_gen_chunks(ctx, n):
+def run_gen_chunks(ctx, n, be=None):
     rng = ctx.rng
     cases = []
     for _ in range(n):
@@ -809,11 +809,51 @@ def run_gen_chunks(ctx, n):
             if mde and rng.random() < 0.04:
                 rng.choice(mde)[1] = rng.choice([0, -1, -3])
         cases.append(dict(shape=shape, itemsize=itemsize, mcs=mcs, dims=dims, pow2=rng.random() < 0.5, mde=mde))
-    run_gc_batch(ctx, cases, sample=True)
+    run_gc_batch(ctx, cases, sample=True, be=be, roundtrips=ctx.scale(45, 450))
 
 
-def run_gc_batch(ctx, cases, sample=False):
+def gc_round_trip(ctx, be, c, out, kind):
+    """The scheme generate_chunks returned is used as the chunking of put_dask_array / get_dask_array (clause "any
+    chunking ... reads back identical" composed with the generator: theorem C07_generated_chunks_round_trip)."""
+    shape = tuple(c['shape'])
+    chunks = tuple(tuple(o) for o in out)
+    dtype = np.dtype('<i4')
+    x = np.arange(int(np.prod(shape)), dtype=dtype).reshape(shape)
+    store, name, keys = be.new(kind, shape, dtype)
+    sig = 'op=generate_chunks_roundtrip;backend=%s;' % kind
+    try:
+        with dask.config.set(**SYNC):
+            res = store.put_dask_array(name, da.from_array(x, chunks=chunks)).compute()
+            ok = all(r is None for r in res.ravel())
+            back = np.asarray(store.get_dask_array(name, chunks, dtype, errors='raise').compute())
+        if not ok:
+            ctx.disagree(sig + 'symptom=put_failed', c, repr(res.ravel()[:4]), None, 'a block of the generated chunking was not stored')
+        elif not same(back, x):
+            ctx.disagree(sig + 'symptom=wrong_data', c, back.ravel()[:8].tolist(), None, 'array stored with the generated chunking reads back differently',
+                         spec=x.ravel()[:8].tolist())
+        if keys is not None and ok:
+            nblocks = int(np.prod([len(o) for o in chunks]))
+            if len([k for k in keys() if k.endswith('.npy')]) != nblocks:
+                ctx.disagree(sig + 'symptom=object_count', c, len(keys()), nblocks, 'number of stored objects differs from the number of blocks')
+    except Exception as e:
+        ctx.disagree(sig + 'symptom=raised:%s' % type(e).__name__, c, repr(e)[:200], None, 'round trip with the generated chunking raised')
+    be.done()
+    ctx.traces_validated += 1
+    ctx.count('gc_roundtrip:' + kind)
+
+
+def run_gc_batch(ctx, cases, sample=False, be=None, roundtrips=0):
     outs = [gc_case(ctx, c, None) for c in cases]
+    if be is not None:
+        done = 0
+        for c, o in zip(cases, outs):
+            if done >= roundtrips:
+                break
+            if not isinstance(o, Exception) and 1 < int(np.prod(c['shape'])) <= 600 and len(o) == len(c['shape']) \
+                    and all(sum(x) == n and x and min(x) > 0 for x, n in zip(o, c['shape'])) \
+                    and 1 < int(np.prod([len(x) for x in o])) <= 64:
+                gc_round_trip(ctx, be, c, o, ['dict', 'npy', 's3'][done % 3])
+                done += 1
     wires = [gc_wire(c, [] if isinstance(o, Exception) else o) for c, o in zip(cases, outs)]
     mos = ctx.model([w[0] for w in wires])
     for c, o, w, mo in zip(cases, outs, wires, mos):
@@ -823,7 +863,8 @@ def run_gc_batch(ctx, cases, sample=False):
         ctx.count('generate_chunks')
         ctx.count('gc_split=%s' % split)
         if sample:
-            ctx.count('gc_' + gc_flags(c, w[2], w[3], detail=True).split(';', 1)[1])
+            for part in gc_flags(c, w[2], w[3], detail=True).split(';')[1:]:
+                ctx.count('gc_' + part)
 
 
 def run_gc_exhaustive(ctx):
@@ -1390,7 +1431,7 @@ def run(ctx):
                 run_witness(ctx, be, f['witness'])
             run_names(ctx, ctx.scale(300, 3000))
             run_buckets(ctx, ctx.scale(300, 3000))
-            run_gen_chunks(ctx, ctx.scale(3000, 40000))
+            run_gen_chunks(ctx, ctx.scale(3000, 40000), be)
             run_roundtrips(ctx, be, gen_roundtrips(ctx, ctx.scale(480, 6000)))
             run_index_cases(ctx, be, gen_index_cases(ctx, ctx.scale(300, 4500)))
             run_ops(ctx, be, ctx.scale(120, 1500))
